@@ -993,6 +993,10 @@ func imageSeenOrWait(ctx context.Context, opt *imageOpt, repo, tag string, dig d
 		// quick check for the previous copy already done
 		select {
 		case <-seen.done:
+			if errors.Is(seen.err, context.Canceled) && ctx.Err() == nil {
+				// the other copy was canceled, this one was not, run the copy here
+				return imageSeenOrWait(ctx, opt, repo, tag, dig, parents)
+			}
 			return nil, seen.err
 		default:
 		}
@@ -1006,6 +1010,10 @@ func imageSeenOrWait(ctx context.Context, opt *imageOpt, repo, tag string, dig d
 		done := ctx.Done()
 		select {
 		case <-seen.done:
+			if errors.Is(seen.err, context.Canceled) && ctx.Err() == nil {
+				// the other copy was canceled (the subtree it ran in was aborted), this one was not, run the copy here
+				return imageSeenOrWait(ctx, opt, repo, tag, dig, parents)
+			}
 			return nil, seen.err
 		case <-done:
 			return nil, ctx.Err()
@@ -1013,13 +1021,15 @@ func imageSeenOrWait(ctx context.Context, opt *imageOpt, repo, tag string, dig d
 	} else {
 		return func(err error) {
 			seenNew.err = err
-			close(seenNew.done)
-			// on failures, delete the history to allow a retry
+			// on failures, delete the history to allow a retry, before waking those that wait for this copy
 			if err != nil {
 				opt.mu.Lock()
-				delete(opt.seen, key)
+				if opt.seen[key] == seenNew {
+					delete(opt.seen, key)
+				}
 				opt.mu.Unlock()
 			}
+			close(seenNew.done)
 		}, nil
 	}
 }
